@@ -1,1 +1,150 @@
-//! Hooks for property C08 (empty until needed).
+//! Hooks for property C08 (pack files, their headers and the index agree).
+//!
+//! Thin wrappers around the crate-private pack header codec
+//! (`PackHeaderRef::to_binary/size/pack_size`, `PackHeader::from_binary/from_file`),
+//! the `BasicPacker` state machine and the blob/header encryption of a repository key.
+use std::{num::NonZeroU32, sync::Arc};
+
+use bytes::Bytes;
+
+use crate::{
+    backend::{WriteBackend, decrypt::DecryptBackend},
+    blob::{
+        BlobId, BlobLocation, BlobType,
+        packer::{BasicPacker, PackSizer},
+    },
+    crypto::CryptoKey,
+    id::Id,
+    repofile::{
+        MasterKey,
+        indexfile::{IndexBlob, IndexPack},
+        packfile::{PackHeader, PackHeaderRef, PackId},
+    },
+};
+
+/// Build an `IndexBlob` (the `BlobLocation` type is not part of the public API).
+#[must_use]
+pub fn mk_blob(id: Id, tpe: BlobType, offset: u32, length: u32, ulen: Option<u32>) -> IndexBlob {
+    IndexBlob {
+        id: BlobId::from(id),
+        tpe,
+        location: BlobLocation {
+            offset,
+            length,
+            uncompressed_length: ulen.and_then(NonZeroU32::new),
+        },
+    }
+}
+
+/// `(id, type, offset, length, uncompressed_length)` of an `IndexBlob`.
+#[must_use]
+pub fn blob_fields(b: &IndexBlob) -> (Id, BlobType, u32, u32, Option<u32>) {
+    (
+        *b.id,
+        b.tpe,
+        b.location.offset,
+        b.location.length,
+        b.location.uncompressed_length.map(NonZeroU32::get),
+    )
+}
+
+/// `PackHeaderRef::to_binary`
+pub fn header_to_binary(blobs: &[IndexBlob]) -> Result<Vec<u8>, String> {
+    PackHeaderRef(blobs).to_binary().map_err(|e| e.to_string())
+}
+
+/// `PackHeader::from_binary`
+pub fn header_from_binary(data: &[u8]) -> Result<Vec<IndexBlob>, String> {
+    PackHeader::from_binary(data)
+        .map(PackHeader::into_blobs)
+        .map_err(|e| e.to_string())
+}
+
+/// `PackHeaderRef::size`
+#[must_use]
+pub fn header_size(blobs: &[IndexBlob]) -> u32 {
+    PackHeaderRef(blobs).size()
+}
+
+/// `PackHeaderRef::pack_size`
+#[must_use]
+pub fn header_pack_size(blobs: &[IndexBlob]) -> u32 {
+    PackHeaderRef(blobs).pack_size()
+}
+
+/// `PackHeader::from_file` over an arbitrary backend and the given master key.
+pub fn header_from_file(
+    be: Arc<dyn WriteBackend>,
+    key: &MasterKey,
+    id: Id,
+    size_hint: Option<u32>,
+    pack_size: u32,
+) -> Result<Vec<IndexBlob>, String> {
+    let dbe = DecryptBackend::new(be, key.key());
+    PackHeader::from_file(&dbe, PackId::from(id), size_hint, pack_size)
+        .map(PackHeader::into_blobs)
+        .map_err(|e| e.to_string())
+}
+
+/// `Key::encrypt_data` with the key of the given master key.
+pub fn encrypt_data(key: &MasterKey, data: &[u8]) -> Result<Vec<u8>, String> {
+    key.key().encrypt_data(data).map_err(|e| e.to_string())
+}
+
+/// `Key::decrypt_data` with the key of the given master key.
+pub fn decrypt_data(key: &MasterKey, data: &[u8]) -> Result<Vec<u8>, String> {
+    key.key().decrypt_data(data).map_err(|e| e.to_string())
+}
+
+/// One step of `RawPacker::add_raw`: `BasicPacker::add_raw`, then a save when `save_after`
+/// (the value `should_save()` would have, chosen by the caller as it depends on time).
+pub struct PackerOp {
+    pub data: Vec<u8>,
+    pub id: Id,
+    pub ulen: Option<u32>,
+    pub save_after: bool,
+}
+
+/// Runs `BasicPacker` exactly as `RawPacker::{add_raw, save, finalize}` drive it
+/// (header = `header_bytes()`, encrypted with the key, `write_header`, `take_data`),
+/// without the writer thread: returns every emitted `(file bytes, IndexPack)`.
+pub fn basic_packer_run(
+    tpe: BlobType,
+    key: &MasterKey,
+    ops: Vec<PackerOp>,
+) -> Result<Vec<(Vec<u8>, IndexPack)>, String> {
+    let k = key.key();
+    let mut basic = BasicPacker::new(tpe, PackSizer::fixed(u32::MAX));
+    let mut out = Vec::new();
+    let mut save = |basic: &mut BasicPacker| -> Result<(), String> {
+        let data = basic.header_bytes().map_err(|e| e.to_string())?;
+        let data: Bytes = k.encrypt_data(&data).map_err(|e| e.to_string())?.into();
+        basic.write_header(data).map_err(|e| e.to_string())?;
+        let (file, index) = basic.take_data();
+        let bytes: Vec<u8> = file
+            .into_vec()
+            .into_iter()
+            .flat_map(|b| b.to_vec())
+            .collect();
+        out.push((bytes, index));
+        Ok(())
+    };
+    for op in ops {
+        let data_len = op.data.len() as u64;
+        basic
+            .add_raw(
+                Bytes::from(op.data),
+                &BlobId::from(op.id),
+                data_len,
+                op.ulen.and_then(NonZeroU32::new),
+            )
+            .map_err(|e| e.to_string())?;
+        if op.save_after {
+            save(&mut basic)?;
+        }
+    }
+    if !basic.is_empty() {
+        save(&mut basic)?;
+    }
+    Ok(out)
+}
